@@ -167,8 +167,14 @@ def plan(rng, idx, tier):
         t['faults'].append({'kind': 'recursion', 'client': 0, 'op_id': op['id'], 'headroom': 2 + frng.randrange(18)})
     t['transport'] = {'fork': idx % 16 == 5, 'spawn': (idx % 400 == 9) or (tier == 'thorough' and idx % 60 == 9)}
     t['subprocess'] = (idx % 120 == 3)
-    if tier == 'thorough' and idx % 50 == 0 and allops:
-        t['enumerate_cancel'] = {'client': 0, 'op_id': clients[0][0]['id'], 'max_lines': 300}
+    if allops and ((tier == 'thorough' and idx % 10 == 0) or idx % 40 == 0):
+        # every line of one call as a crash point; prefer a call that is the first to use the per-world
+        # custom model (lazily initialised state is built then), else the first call of client 0
+        items = world['items']
+        pref = [op for _, op in allops if items[op['x'] % len(items)]['model'] == 3
+                and op['op'] in ('reify_edges', 'dereify_edges', 'role_algebra', 'errors', 'encode', 'decode')]
+        target = pref[0] if pref else clients[0][0]
+        t['enumerate_cancel'] = {'op_id': target['id'], 'max_lines': 400 if tier == 'thorough' else 200}
     return t
 
 
@@ -214,21 +220,25 @@ class World:
             self.mi.append(mi)
         self.triple_texts = [penman.format_triples(g.triples) for g in self.graphs]
 
-    def shared(self):
+    def shared(self, models=True):
         """(name, object) pairs whose structure must never change."""
         out = []
         for i, g in enumerate(self.graphs):
             out.append((f'graph{i}', g))
         for i, t in enumerate(self.trees):
             out.append((f'tree{i}', t))
-        for i, m in enumerate(self.models):
-            out.append((f'model{i}', m))
-        for i, c in enumerate(self.codecs):
-            out.append((f'codec{i}.model', c.model))
+        if models:
+            for i, m in enumerate(self.models):
+                out.append((f'model{i}', m))
+            for i, c in enumerate(self.codecs):
+                out.append((f'codec{i}.model', c.model))
         return out
 
-    def digests(self):
-        return [digest.fingerprint(o) for _, o in self.shared()]
+    def digests(self, models=False):
+        """Fingerprints of the shared graphs and trees; models only on request: reading a model's tables is
+        itself a use of the model (it may initialise lazily), so the harness looks at models only after
+        the simulated phase, never before or during it."""
+        return [digest.fingerprint(o) for _, o in self.shared(models)]
 
 
 def _pk(x):
@@ -465,7 +475,7 @@ def _execute(trace, cfg, clients, res):
 
     world = World(trace['world'])
     pristine = world.digests()
-    names = [n for n, _ in world.shared()]
+    names = [n for n, _ in world.shared(models=False)]
     if any(it['kind'] == 'transformed' for it in trace['world']['items']):
         res.hit('probe.transform_output_in_world')
     if any(it['kind'] == 'handbuilt' for it in trace['world']['items']):
@@ -601,6 +611,14 @@ def _execute(trace, cfg, clients, res):
                             switches=S.switches, scripts=[[o['op'] for o in ops_] for ops_ in clients])
                 break
     check_shared('end of run')
+    # models and codecs: compared only now, with the models of the sequentially used reference world
+    mnames = [n for n, _ in world.shared()][len(names):]
+    a = world.digests(models=True)[len(names):]
+    b = ref_world.digests(models=True)[len(names):]
+    if a != b:
+        bad = [mnames[i] for i in range(len(mnames)) if a[i] != b[i]]
+        res.violate('arguments', 'shared-model-differs-from-sequentially-used-model', objects=bad,
+                    scripts=[[o['op'] for o in ops_] for ops_ in clients])
 
     if trace.get('enumerate_cancel'):
         enumerate_cancel(trace, reference, res)
@@ -616,10 +634,12 @@ def _short(x):
 def enumerate_cancel(trace, reference, res):
     """Every line of one small call as a crash point (thorough tier)."""
     spec = trace['enumerate_cancel']
-    ops = [op for op in trace['clients'][0] if op['id'] == spec['op_id']]
+    ops = [op for ops_ in trace['clients'] for op in ops_ if op['id'] == spec['op_id']]
     if not ops or ops[0]['op'] in ('iter_next', 'iter_open'):
         return
     op = ops[0]
+    # the reference result of this call on a world where it is the first call
+    fresh_ref = result_canon(lambda: run_op(World(trace['world']), op, {'iters': []}))
     for k in range(1, spec.get('max_lines', 300) + 1):
         world = World(trace['world'])
         pristine = world.digests()
@@ -648,9 +668,9 @@ def enumerate_cancel(trace, reference, res):
             res.violate('arguments', 'shared-object-changed', where=f'cancel at line {k} of {op["op"]}: {state["cancelled"]}',
                         objects=[], running={})
             break
-        if state.get('again') != reference[op['id']]:
+        if state.get('again') != fresh_ref:
             res.violate('after-fault', 'reissued-call-differs', op=op, fault='cancel', where=state['cancelled'],
-                        expected=_short(reference[op['id']]), got=_short(state.get('again')))
+                        expected=_short(fresh_ref), got=_short(state.get('again')))
             break
 
 
